@@ -2,20 +2,22 @@
 
 Theorems: coq/Properties/C09.v (ISO 6937 / ISO 8859 tables and classifiers decided in the kernel over the whole
 byte domain; the text-field machine refines the specification for every byte list; times from the C12 lemmas;
-region geometry over Q; grouping and per-block steps of the reader).  Ties: tables regenerated from the
+region geometry over Q; grouping and per-block steps of the reader; the whole-file pipeline against S's `presentation`
+for every file in S's domain, Proofs/C09/File.v).  Ties: tables regenerated from the
 source (harness/gen_c09.py), exhaustive ISO 6937 correspondence (256 single bytes, 15 x 256 diacritic pairs),
 random text fields through ttconv.stl.tf.to_model, byte-level generated files x reader configurations through
-ttconv.stl.reader.to_model; all compared inside Coq with M (Model/StlDatafile.v reader_model) and judged by S
-(Spec/Ebu3264Spec.v presentation) on the implementation's own output."""
+ttconv.stl.reader.to_model (document, active area and the values passed to the progress callback), configuration values
+through STLReaderConfiguration.parse; all compared inside Coq with M (Model/StlDatafile.v reader_model, progress_model,
+decode_start_tc, decode_max_row_count) and judged by S (Spec/Ebu3264Spec.v presentation) on the implementation's own output."""
 import io, os, re, struct, sys, json, glob, logging
 from fractions import Fraction
 import common as C
 import gen_tables
 
-FINDINGS = ["cumulative-before-first", "tf-strip-not-cut", "df-23976", "iso6937-a4", "comment-flag-ignored",
-            "blank-row-dropped", "vp-zero-above-safe-area", "tnb-zero-division"]      # bit i of Model/StlTriggers.v trigger_mask
-# repaired upstream (fixed: entries of KNOWN_FINDINGS.txt; regression witnesses in harness/witnesses_c09.py):
-# tcp-attribute-error 9e84fe8, mnr-sets-start-offset 41b1329, sn-identity 434048d
+FINDINGS = ["df-23976"]      # bit i of Model/StlTriggers.v trigger_mask
+# repaired (fixed: entries; regression witnesses in harness/witnesses_c09.py): tcp-attribute-error 9e84fe8, mnr-sets-start-offset
+# 41b1329, sn-identity 434048d; and in the second phase tnb-zero-division, cumulative-before-first, tf-strip-not-cut,
+# comment-flag-ignored, iso6937-a4, blank-row-dropped, vp-zero-above-safe-area
 DFCS = [b"STL23.01", b"STL24.01", b"STL25.01", b"STL30.01", b"STL50.01"]
 NOMINAL = {b"STL23.01": 24, b"STL24.01": 24, b"STL25.01": 25, b"STL30.01": 30, b"STL50.01": 50}
 ERRORS = {"error": "EStruct", "AttributeError": "EAttribute", "ValueError": "EValue", "ZeroDivisionError": "EZeroDiv"}
@@ -124,14 +126,18 @@ def canon_doc(doc):
             ps.append((ri, align, int(fsz.value), int(lh.value), time, items))
             if fsz.value != int(fsz.value) or lh.value != int(lh.value): raise Shape("non-integer size")
         divs.append(ps)
+    aa = doc.get_active_area()
+    if aa is None: raise Shape("no active area")
     return dict(lang=doc.get_lang(), cols=cr.columns, rows=cr.rows, fill=fill is True,
+                active=[Fraction(aa.left_offset), Fraction(aa.top_offset), Fraction(aa.width), Fraction(aa.height)],
                 pad=None if lp is None else Fraction(lp.value), fonts=fonts, regions=rs, divs=divs)
 
 
 def run_reader(data, cfg):
-    """-> ('ok', canon) | ('err', enum) | ('other', text)"""
+    """-> ('ok', canon, progress) | ('err', enum, progress) | ('other', text, progress); progress = the values passed to the callback"""
     import ttconv.stl.reader as R
     from ttconv.stl.config import STLReaderConfiguration
+    prog = []
     try:
         kw = {}
         if cfg["start"] is not None: kw["program_start_tc"] = cfg["start"]
@@ -142,14 +148,15 @@ def run_reader(data, cfg):
             import ttconv.style_properties as s
             kw["font_stack"] = tuple(s.GenericFontFamilyType(n) if g else n for g, n in cfg["fonts"])
         conf = STLReaderConfiguration(**kw) if (kw or cfg.get("explicit")) else None
-        doc = R.to_model(io.BytesIO(data), conf)
+        doc = R.to_model(io.BytesIO(data), conf, prog.append)
     except Exception as e:
         name = type(e).__name__
-        return ("err", ERRORS[name]) if name in ERRORS else ("other", f"{name}: {e}")
+        return ("err", ERRORS[name], prog) if name in ERRORS else ("other", f"{name}: {e}", prog)
+    if not all(isinstance(x, float) for x in prog): return ("other", f"progress values {prog[:3]}", prog)
     try:
-        return ("ok", canon_doc(doc))
+        return ("ok", canon_doc(doc), prog)
     except Shape as e:
-        return ("other", f"unexpected document shape: {e}")
+        return ("other", f"unexpected document shape: {e}", prog)
 
 
 # ------------------------------------------------------------------------------------------- Gallina literals
@@ -185,7 +192,8 @@ def lit_outcome(res):
     divs = "[" + ";".join("[" + ";".join(para(p) for p in ps) + "]" for ps in d["divs"]) + "]"
     fonts = "[" + ";".join(f"({C.boolean(g)}, {zl(n.encode())})" for g, n in d["fonts"]) + "]"
     pad = "None" if d["pad"] is None else f"(Some ({d['pad'].numerator}, {d['pad'].denominator}))"
-    return (f"(Ok (mkDoc {zl(d['lang'].encode())} {d['cols']} {d['rows']} {C.boolean(d['fill'])} {pad} {fonts} {regs} {divs}))")
+    act = "(" + ", ".join(C.q(x) for x in d["active"]) + ")"
+    return (f"(Ok (mkDoc {zl(d['lang'].encode())} {d['cols']} {d['rows']} {act} {C.boolean(d['fill'])} {pad} {fonts} {regs} {divs}))")
 
 def lit_cfg(cfg):
     st = "StNone" if cfg["start"] is None else ("StTCP" if cfg["start"] == "TCP" else f"(StStr {C.text(cfg['start'])})")
@@ -225,7 +233,7 @@ def gen_text(rng, cct, maxlen, wild=0.0):
             if rng.random() < 0.2: out.append(rng.choice(CONTROL))
         elif k < 0.95:
             out.append(0x8A)
-            if dh or rng.random() < 0.03: out.append(0x8A)
+            if dh or rng.random() < 0.12: out.append(0x8A)           # double height row separator / an empty row in single height
             if rng.random() < 0.4: out.append(rng.choice([0x0D, 7, 3, 6, 0x0B])) if dh else out.append(rng.choice([7, 3, 6, 2, 0x0B]))
         elif k < 0.98: out.append(rng.choice(RESERVED))
         elif rng.random() < wild: out.append(0x8F)
@@ -299,6 +307,7 @@ def gen_file(rng, profile):
         else:
             cs = 0
         if profile != "wf" and rng.random() < wild * 0.25: cs = rng.choice([0, 1, 2, 3, 4, 255])
+        if profile != "wf" and not blocks and rng.random() < 0.15: cs = rng.choice([2, 3, 3, 7])       # the file starts inside a cumulative set
         tci = label_from(rng, F, drop, t, 3)
         dur = rng.randrange(0, 8)
         tco = label_from(rng, F, drop, t + dur + (0 if dur else 0), 2)
@@ -325,15 +334,16 @@ def gen_file(rng, profile):
         mr = max_rows if isinstance(max_rows, int) and max_rows > 0 else 23
         if rng.random() < 0.85: vp = max(1, min(mr, mr - rows_needed + 1 - rng.choice([0, 0, 0, 1, 2]))) if rng.random() < 0.7 else rng.randrange(1, max(2, mr // 2))
         else: vp = rng.choice([0, 0, mr, mr + 1, 255, rng.randrange(256)])
-        if profile == "wf" and vp == 0 and rng.random() < 0.85: vp = 1
         vp = max(0, min(255, vp))
-        cf = 1 if rng.random() < (0.01 if profile == "wf" else 0.08) else 0
+        cf = 1 if rng.random() < (0.05 if profile == "wf" else 0.08) else 0          # a comment subtitle (all its blocks)
         for k, ch in enumerate(chunks):
             last = k == len(chunks) - 1
             ebn = 0xFF if last else k
             if profile != "wf" and rng.random() < wild * 0.1: ebn = rng.choice([0xFF, 0, 1, 0xEF, 0xF0, 0xFE])
             tfb = ch
             if profile != "wf" and rng.random() < wild * 0.15: tfb = b"\x8f" * rng.randrange(1, 3) + ch
+            elif ch and rng.random() < (0.04 if profile == "wf" else 0.1):      # unused space inside the field: the text ends there
+                k = rng.randrange(0, len(ch)); tfb = ch[:k] + b"\x8f" * rng.randrange(1, 3) + ch[k:]
             hdr = dict(sn=sn, ebn=ebn, cs=cs, tci=tci, tco=tco, vp=vp, jc=jc, cf=cf, sgn=sgn)
             if profile == "wild" and rng.random() < 0.1: hdr["sn"] = sn + 1
             blocks.append(tti(tf=tfb, **hdr))
@@ -366,23 +376,8 @@ def finding_witnesses():
     res = {}
     base = dict(start=None, rows=None, nofill=False, nopad=False, fonts=None)
     def paras(r): return [p for d in r[1]["divs"] for p in d] if r[0] == "ok" else None
-    def text_of(p): return "".join(i[1][5] for i in p[5] if i[0] == "leaf" and i[1][0] == "run")
-    r = run_reader(gsi() + tti(cs=2), base)
-    res["cumulative-before-first"] = "AttributeError on None" if r == ("err", "EAttribute") else None
-    p = paras(run_reader(gsi() + tti(tf=b"\x8fAB"), base))
-    res["tf-strip-not-cut"] = "text after a leading unused-space byte is presented: " + repr(text_of(p[0])) if p and text_of(p[0]) == "AB" else None
     p = paras(run_reader(gsi(dfc=b"STL23.01") + tti(tci=(0, 1, 0, 0), tco=(0, 1, 0, 1)), base))
     res["df-23976"] = f"00:01:00:00 at 24000/1001 begins at {p[0][4][0]} instead of 3003/50" if p and p[0][4][0] != Fraction(1440 * 1001, 24000) else None
-    p = paras(run_reader(gsi() + tti(tf=b"a\xa4b"), base))
-    res["iso6937-a4"] = "0xA4 decodes to " + repr(text_of(p[0])) if p and text_of(p[0]) == "a¤b" else None
-    p = paras(run_reader(gsi() + tti(cf=1, tf=b"translator note"), base))
-    res["comment-flag-ignored"] = "a comment block (CF=1) is presented as a subtitle" if p else None
-    p = paras(run_reader(gsi() + tti(tf=b"A\x8a\x8aB", vp=10), base))
-    res["blank-row-dropped"] = "A, empty row, B presented with one line break" if p and [i[1][0] for i in p[0][5]] == ["run", "br", "run"] else None
-    r = run_reader(gsi(dsc=b"0") + tti(vp=0), dict(base, rows=99))
-    res["vp-zero-above-safe-area"] = f"region origin y = {float(r[1]['regions'][0][1]):.3f} % < 10 %" if r[0] == "ok" and r[1]["regions"] and r[1]["regions"][0][1] < 10 else None
-    r = run_reader(gsi(tnb=b"00000") + tti(), base)
-    res["tnb-zero-division"] = "ZeroDivisionError in the progress computation" if r == ("err", "EZeroDiv") else None
     return res
 
 
@@ -390,6 +385,7 @@ def finding_witnesses():
 def main():
     run = C.Run("C09", "proof")
     run.hygiene()
+    if os.environ.get("VERIF_JOBS"): C.NCPU = max(1, min(C.NCPU, int(os.environ["VERIF_JOBS"])))      # shared machines
     sys.path.insert(0, C.SRC)
     changed, errors = gen_tables.generate({"Iso6937Tables", "StlTables", "Iso6937Spec"})
     if errors:
@@ -397,7 +393,7 @@ def main():
         return run.finish()
     if changed: run.log("tables regenerated from source:", changed)
     ok, log = run.build(["Proofs/C09/Tables.vo", "Proofs/C09/TextField.vo", "Proofs/C09/Text.vo", "Proofs/C09/Times.vo", "Proofs/C09/Datafile.vo",
-                         "Model/StlCases.vo"], clean=(run.tier == "thorough"))
+                         "Proofs/C09/File.vo", "Model/StlCases.vo"], clean=(run.tier == "thorough"))
     proofs_ok = ok and run.theorems()
     if not ok: run.proof_log = log[-2500:]
     run.witnesses()
@@ -488,7 +484,7 @@ def main():
     shard, size, shards = [], 0, []
     for idx, ((data, cfg, desc), r) in enumerate(zip(cases, results)):
         if r[0] == "other": continue
-        lit = f"({rle(data)}, {lit_cfg(cfg)}, {lit_outcome(r)})"
+        lit = f"({rle(data)}, {lit_cfg(cfg)}, {lit_outcome(r)}, [" + ";".join(C.q(Fraction(x)) for x in r[2]) + "])"
         shard.append((idx, lit)); size += len(lit)
         if size > 180000: shards.append(shard); shard, size = [], 0
     if shard: shards.append(shard)
@@ -496,7 +492,53 @@ def main():
         p = f"{C.GEN}/Cases_C09_file_{k}.v"
         open(p, "w").write(hdr + "Definition cs : list case := [\n" + ";\n".join(l for _, l in sh) + "].\nEval vm_compute in map case_verdict cs.\n")
         files.append(("file", [i for i, _ in sh], p))
-    run.log(f"{len(iso_rows)} ISO 6937 strings, {len(tf_rows)} text fields, {len(cases)} files ({len(corpus)} corpus files) in {len(files)} case files")
+    # ---- 4. stl/config.py decoders through STLReaderConfiguration.parse ------------------------------------------------
+    from ttconv.stl.config import STLReaderConfiguration
+    def parse_cfg(d):
+        try: return ("ok", STLReaderConfiguration.parse(d))
+        except ValueError: return ("err", "EValue")
+        except Exception as e: return ("other", f"{type(e).__name__}: {e}")
+    def gen_start(rng):
+        k = rng.random()
+        if k < 0.08: return None
+        if k < 0.25: return "".join(rng.choice(p) for p in ("tT", "cC", "pP")) + (rng.choice(["", "", " ", "x"]) if rng.random() < 0.3 else "")
+        d = lambda: rng.choice("0123456789") if rng.random() < 0.93 else rng.choice("aX -:\u0663\uff11")
+        sep = lambda: rng.choice(":::::::;.,") if rng.random() < 0.85 else rng.choice(["\n", "x", " ", "", "::", "\r", "\u2028"])
+        t = d() + d() + sep() + d() + d() + sep() + d() + d() + sep() + d() + d()
+        if rng.random() < 0.2: t += rng.choice(["", " ", "x", ":00", "\n"])
+        if rng.random() < 0.05: t = rng.choice(["", "TCP ", "tcP", "T\u0441P", "\u0131cp", "10:00:00", "1:2:3:4", "10:00:00:00:00"])
+        return t
+    def gen_rows(rng):
+        k = rng.random()
+        if k < 0.1: return None
+        if k < 0.35: return "".join(rng.choice(p) for p in ("mM", "nN", "rR")) + (rng.choice(["", " ", "x"]) if rng.random() < 0.2 else "")
+        if k < 0.7: return rng.choice([0, 1, 2, 11, 23, 24, 99, -3, 1000, 2 ** 40])
+        if k < 0.8: return rng.choice([True, False])
+        if k < 0.9: return rng.choice(["23", "", "MN", "MNRR", "\u039cNR", "m\u0274r"])
+        return rng.choice([23.0, [23], {"a": 1}, 1.5])
+    n_cfg = 1 if replay is not None else (6000 if thorough else 600)
+    start_rows, rows_rows, cfg_others = [], [], []
+    for _ in range(n_cfg):
+        v = gen_start(rng); r = parse_cfg({} if v is None and rng.random() < 0.5 else {"program_start_tc": v})
+        if r[0] == "other": cfg_others.append((dict(program_start_tc=v), r[1])); continue
+        out = r[1].program_start_tc if r[0] == "ok" else None
+        if r[0] == "ok" and not (out is None or isinstance(out, str)): cfg_others.append((dict(program_start_tc=v), f"decoded to {out!r}")); continue
+        start_rows.append((v, "(inr EValue)" if r[0] == "err" else "(inl " + ("StNone" if out is None else "StTCP" if out == "TCP" else f"(StStr {C.text(out)})") + ")"))
+        v = gen_rows(rng); r = parse_cfg({} if v is None and rng.random() < 0.5 else {"max_row_count": v})
+        if r[0] == "other": cfg_others.append((dict(max_row_count=v), r[1])); continue
+        out = r[1].max_row_count if r[0] == "ok" else None
+        if r[0] == "ok" and not (out is None or out == "MNR" or isinstance(out, int)): cfg_others.append((dict(max_row_count=v), f"decoded to {out!r}")); continue
+        vl = ("None" if v is None else "(Some (VStr " + C.text(v) + "))" if isinstance(v, str) else f"(Some (VBool {C.boolean(v)}))" if isinstance(v, bool)
+              else f"(Some (VInt {C.z(v)}))" if isinstance(v, int) else "(Some VOther)")
+        rows_rows.append((v, vl, "(inr EValue)" if r[0] == "err" else "(inl " + ("MrNone" if out is None else "MrMNR" if isinstance(out, str) else f"(MrInt {C.z(int(out))})") + ")"))
+    pcfg = f"{C.GEN}/Cases_C09_cfg_0.v"
+    open(pcfg, "w").write(hdr + "Definition cs1 : list (option text * (start_tc + error)) := [\n" +
+                          ";\n".join(f"({'None' if v is None else '(Some ' + C.text(v) + ')'}, {o})" for v, o in start_rows) + "].\n" +
+                          "Definition cs2 : list (option cfg_value * (max_rows_cfg + error)) := [\n" + ";\n".join(f"({vl}, {o})" for _, vl, o in rows_rows) + "].\n" +
+                          "Eval vm_compute in map (fun c => if cfg_start_case c then 1 else 0) cs1 ++ map (fun c => if cfg_rows_case c then 1 else 0) cs2.\n")
+    files.append(("cfg", len(start_rows) + len(rows_rows), pcfg))
+    run.log(f"{len(iso_rows)} ISO 6937 strings, {len(tf_rows)} text fields, {len(cases)} files ({len(corpus)} corpus files), "
+            f"{len(start_rows) + len(rows_rows)} configuration values in {len(files)} case files")
     res = C.coqc_many([p for _, _, p in files], 1800)
     logging.disable(logging.NOTSET)
 
@@ -507,25 +549,26 @@ def main():
             return [] if re.search(r"=\s*\[\s*\]|= nil", flat) else None
         return [int(x) for x in re.findall(r"-?\d+", m.group(1))]
 
-    broken = []; iso_m_bad = []; iso_s_bad = []; iso_a4 = 0
-    tf_m_bad = []; tf_s_bad = []; tf_excused = 0
-    file_m_bad = []; file_s_bad = []; file_known = {}; in_domain = 0; spec_ok_n = 0
+    broken = []; iso_m_bad = []; iso_s_bad = []
+    tf_m_bad = []; tf_s_bad = []
+    file_m_bad = []; file_s_bad = []; file_known = {}; in_domain = 0; spec_ok_n = 0; cfg_m_bad = []
     for kind, base, p in files:
         rc, out = res[p]
         v = verdicts(out) if rc == 0 else None
-        n_expected = len(base) if kind == "file" else None
-        if v is None or (kind == "file" and len(v) != n_expected):
+        n_expected = len(base) if kind == "file" else (base if kind == "cfg" else None)
+        if v is None or (kind in ("file", "cfg") and len(v) != n_expected):
             broken.append((p, out[-500:])); continue
+        if kind == "cfg":
+            cfg_m_bad = [j for j, x in enumerate(v) if x != 1]
+            continue
         if kind == "iso":
             for j, x in enumerate(v):
                 if not x & 1: iso_m_bad.append(base + j)
                 if x >> 1 == 2: iso_s_bad.append(base + j)
-                if x >> 1 == 0: iso_a4 += 1
         elif kind == "tf":
             for j, x in enumerate(v):
                 if not x & 1: tf_m_bad.append(base + j)
                 if x >> 1 == 2: tf_s_bad.append(base + j)
-                if x >> 1 == 0: tf_excused += 1
         else:
             for idx, x in zip(base, v):
                 if not x & 1: file_m_bad.append(idx)
@@ -538,11 +581,12 @@ def main():
                             if mask >> b & 1: file_known.setdefault(fid, []).append(idx)
                     else: file_s_bad.append(idx)
     C.clean_cases("Cases_C09_")
-    run.log(f"ISO 6937: model/code mismatches {len(iso_m_bad)}, S failures {len(iso_s_bad)}, excused by iso6937-a4 {iso_a4}; "
-            f"text fields: mismatches {len(tf_m_bad)}, S failures {len(tf_s_bad)}, excused {tf_excused}; "
+    run.log(f"ISO 6937: model/code mismatches {len(iso_m_bad)}, S failures {len(iso_s_bad)}; "
+            f"text fields: mismatches {len(tf_m_bad)}, S failures {len(tf_s_bad)}; "
             f"files: mismatches {len(file_m_bad)}, in S's domain {in_domain}, S ok {spec_ok_n}, "
             f"S failures outside findings {len(file_s_bad)}, covered by findings {sum(len(v) for v in file_known.values())}, "
-            f"unexpected exceptions/shapes {len(others)}, broken case files {len(broken)}")
+            f"unexpected exceptions/shapes {len(others)}, broken case files {len(broken)}; "
+            f"configuration values: mismatches {len(cfg_m_bad)}, unexpected {len(cfg_others)}")
 
     # ---- recorded findings: must still fire on the code; Findings/C09.v must still compile ----------------------------
     logging.disable(logging.CRITICAL)
@@ -593,13 +637,20 @@ def main():
         idx, what = others[0]
         run.violation(f"the reader raised an undocumented exception or returned an unexpected document shape: {what}",
                       dict(kind="S-on-code", clause="reader outcome", first=describe(idx), count=len(others)))
-    tie_broken = iso_m_bad or tf_m_bad or file_m_bad or broken or not proofs_ok
+    if cfg_others:
+        s_fail = True
+        run.violation(f"STLReaderConfiguration.parse raised an undocumented exception or decoded to an unexpected type: {cfg_others[0][1]}",
+                      dict(kind="S-on-code", clause="configuration decoders", first=json.loads(json.dumps(cfg_others[0][0], default=str)), count=len(cfg_others)))
+    tie_broken = iso_m_bad or tf_m_bad or file_m_bad or cfg_m_bad or broken or not proofs_ok
     if tie_broken and not s_fail:
         what = []
         if not proofs_ok: what.append("theorems of coq/Properties/C09.v no longer check: " + getattr(run, "proof_log", "")[-600:])
         if iso_m_bad: what.append(f"Model/Iso6937.v vs iso6937.decode disagree on {len(iso_m_bad)} strings, first {iso_rows[iso_m_bad[0]][0].hex()}")
         if tf_m_bad: what.append(f"Model/StlTf.v vs tf.to_model disagree on {len(tf_m_bad)} text fields, first {tf_rows[tf_m_bad[0]][2].hex()}")
         if file_m_bad: what.append(f"Model/StlDatafile.v vs reader.to_model disagree on {len(file_m_bad)} files, first {cases[file_m_bad[0]][2]}")
+        if cfg_m_bad:
+            allc = [("program_start_tc", v) for v, _ in start_rows] + [("max_row_count", v) for v, _, _ in rows_rows]
+            what.append(f"Model/StlDatafile.v decode_start_tc / decode_max_row_count vs stl/config.py disagree on {len(cfg_m_bad)} values, first {allc[cfg_m_bad[0]]!r}")
         if broken: what.append(f"case files did not evaluate: {broken[0]}")
         run.violation("; ".join(what), dict(kind="broken-tie", theorem_file="coq/Properties/C09.v", proofs_ok=proofs_ok,
                                             correspondence="Model/Iso6937.v, Model/StlTf.v, Model/StlDatafile.v vs ttconv/stl",
@@ -608,16 +659,19 @@ def main():
     distinct = len({json.dumps(r[1], default=str, sort_keys=True) for r in results if r[0] == "ok" and any(r[1]["divs"])})
     hist = lambda f: {str(k): sum(1 for c in cases if f(c) == k) for k in sorted({f(c) for c in cases}, key=str)}
     run.cov.update(
-        evaluations=len(iso_rows) + len(tf_rows) + len(cases), distinct_nontrivial=distinct + len({b for _, _, b, _ in tf_rows}),
+        evaluations=len(iso_rows) + len(tf_rows) + len(cases) + len(start_rows) + len(rows_rows), distinct_nontrivial=distinct + len({b for _, _, b, _ in tf_rows}),
         exhaustive_tables=True,
         rule="(1) iso6937.decode on all 256 single bytes and all 15x256 diacritic pairs (thorough: all 65 536 pairs), plus random strings; "
              "(2) random text fields (words of the code table incl. diacritic pairs, spaces, all control codes, new-lines single and doubled, "
              "reserved and filler codes; teletext and open; all CCT values and an unknown one) through tf.to_model; "
              "(3) the 50 STL files of the test resources x configurations and byte-level generated files (60 % well-formed, 30 % mildly "
-             "malformed, 10 % wild incl. truncation) x configurations through reader.to_model; every output canonicalised to language, "
-             "cell resolution, body styles, regions (origin/extent/displayAlign), and per paragraph region, alignment, sizes, begin/end, runs "
-             "(colours, italics, underline, text) and line breaks; compared in Coq with M, judged by S. distinct_nontrivial = distinct "
-             "non-empty canonical documents + distinct text fields.",
+             "malformed, 10 % wild incl. truncation; comment subtitles, empty rows, VP 0, unused-space bytes inside fields, files that start "
+             "inside a cumulative set, TNB 0) x configurations through reader.to_model; every output canonicalised to language, "
+             "cell resolution, active area, body styles, regions (origin/extent/displayAlign), and per paragraph region, alignment, sizes, "
+             "begin/end, runs (colours, italics, underline, text) and line breaks, plus the values passed to the progress callback; "
+             "compared in Coq with M, judged by S; (4) program_start_tc / max_row_count values (TCP/MNR in any case, time codes with any "
+             "separators, non-ASCII digits and letters, ints, bools, other JSON types) through STLReaderConfiguration.parse, compared in Coq "
+             "with the transcribed decoders. distinct_nontrivial = distinct non-empty canonical documents + distinct text fields.",
         replayed=os.environ.get("VERIF_REPLAY"),
         samples=[dict(file=cases[0][2], config=cases[0][1]), dict(tf=tf_rows[0][2].hex(), teletext=tf_rows[0][0], cct=tf_rows[0][1].decode("latin1"))] +
                 ([dict(generated=cases[len(corpus) * 2][2], config=cases[len(corpus) * 2][1])] if len(cases) > len(corpus) * 2 else []),
@@ -626,10 +680,14 @@ def main():
         rows_cfg=hist(lambda c: str(c[1]["rows"]) if not isinstance(c[1]["rows"], int) else "int"),
         outcomes={k: sum(1 for r in results if (r[1] if r[0] == "err" else r[0]) == k) for k in ("ok", "EStruct", "EAttribute", "EValue", "EZeroDiv", "other")},
         files_in_spec_domain=in_domain, files_spec_ok=spec_ok_n, files_excused_by_finding={k: len(v) for k, v in file_known.items()},
-        model_code_mismatches=dict(iso=len(iso_m_bad), tf=len(tf_m_bad), files=len(file_m_bad)),
+        model_code_mismatches=dict(iso=len(iso_m_bad), tf=len(tf_m_bad), files=len(file_m_bad), config=len(cfg_m_bad)),
+        config_values=dict(program_start_tc=len(start_rows), max_row_count=len(rows_rows),
+                           start_outcomes={k: sum(1 for _, o in start_rows if k in o) for k in ("StNone", "StTCP", "StStr", "EValue")},
+                           rows_outcomes={k: sum(1 for _, _, o in rows_rows if k in o) for k in ("MrNone", "MrMNR", "MrInt", "EValue")}),
+        progress_values=sum(len(r[2]) for r in results),
         s_failures_on_code=dict(iso=len(iso_s_bad), tf=len(tf_s_bad), files=len(file_s_bad)))
-    run.assumptions += ["S (Spec/Ebu3264Spec.v) is my reading of EBU Tech 3264-E (GSI/TTI layout, TF codes, CS/EBN semantics), ISO 6937 and ISO 8859-5/6/7/8; "
-                        "the single-byte ISO 6937 table agrees with glibc's ISO_6937 charmap except at 0xA4 (finding)",
+    run.assumptions += ["S (Spec/Ebu3264Spec.v) is my reading of EBU Tech 3264-E (GSI/TTI layout, TF codes, CS/EBN semantics; VP 0 = the top row), ISO 6937 and "
+                        "ISO 8859-5/6/7/8; the single-byte ISO 6937 table agrees with glibc's ISO_6937 charmap except at 0xA4 (dollar sign, 1983 edition)",
                         "region geometry: the implementation computes in binary floating point, M and S in Q; compared up to 1e-9",
                         "canonicalisation of the ContentDocument (harness/c09.py canon_doc) observes what the STL reader sets and rejects any other shape",
                         "CPython int(bytes), bytes.strip, struct.unpack and the small-int cache (-5..256) are modelled, checked through the correspondence only"]
